@@ -316,7 +316,7 @@ func famOf(s string) string {
 }
 
 func main() {
-	ev.Main("C06", "exploration", func(r *ev.Run) {
+	ev.MainIsolated("C06", "exploration", 60*time.Minute, func(r *ev.Run) {
 		r.Rule("the harness owns the root CA and the RSA device keys, so sig = EM^d mod N yields a signature that decrypts to ANY chosen encoded message EM. Per device key size and per (hash in SHA1/256/384/512) x (DigestInfo with/without NULL): the correct EM (must be accepted); EM with each byte position replaced by 3 other values; padding shortened by 1..8 with the tail shifted left (trailing garbage) or right (leading zeros); DigestInfo of another hash; single-bit flips of signature and body; all SignatureAlgorithm labels; device certificate issued by root / other CA / self-signed / expired / not yet valid / ECDSA key. distinct_nontrivial = distinct (family, key size, position, signature) cases whose outcome matched the oracle")
 		r.Assume("reference EM built from RFC 8017 9.2 and cross-checked against crypto/rsa.VerifyPKCS1v15 for the with-NULL form", "chain validity uses the real clock with ±24h margins; the two certificates whose validity changes during the run lapse / begin 2..3 s after the attestors were built and are looked at within the first second and again 1.2 s after the boundary", "labels DSAWith*/ECDSAWith* over an RSA key are don't-care")
 		if r.Replay != nil {
